@@ -852,8 +852,7 @@ class UserWaveguide(Model):
         wl = self.param_dic["wl"]
         S_list = []
         for mode, extra in self.allowed.items():
-            self.param_dic.update(extra)
-            n = self.index_func(**self.param_dic)
+            n = self.index_func(**{**self.param_dic, **extra})
             S = np.zeros((2, 2), complex)
             S[0, 1] = np.exp(2.0j * np.pi * n / wl * self.L)
             S[1, 0] = np.exp(2.0j * np.pi * n / wl * self.L)
